@@ -252,6 +252,10 @@ func TestC06(t *testing.T) {
 func TestReplay(t *testing.T) {
 	raw := hx.ReplayCase(t)
 	rec.SetReplaying()
+	if bc, ok := asBulk(raw); ok {
+		rec.Check(t, bc, hx.Guard("C06", func() *hx.Failure { return runBulk(bc) }))
+		return
+	}
 	var c Case
 	if err := json.Unmarshal(raw, &c); err != nil {
 		t.Fatal(err)
@@ -262,6 +266,9 @@ func TestReplay(t *testing.T) {
 
 func TestRegress(t *testing.T) {
 	hx.Regress(t, "testdata/regress", func(raw []byte) *hx.Failure {
+		if bc, ok := asBulk(raw); ok {
+			return hx.Guard("C06", func() *hx.Failure { return runBulk(bc) })
+		}
 		var c Case
 		if err := json.Unmarshal(raw, &c); err != nil {
 			return hx.Failf("C06/regress-file", "%v", err)
